@@ -185,6 +185,9 @@ var dayRules = ev.Register(&ev.P[dayCase]{
 		if l.GetYearNineStar().GetIndex() != l.GetYearNineStarBySect(2).GetIndex() {
 			return fmt.Errorf("%s: default year star differs from sect 2", day)
 		}
+		if l.GetMonthNineStar().GetIndex() != l.GetMonthNineStarBySect(2).GetIndex() {
+			return fmt.Errorf("%s: default month star differs from sect 2", day)
+		}
 		// month star: step rule against yesterday
 		if j > ref.JDNMin {
 			p := noon(j - 1)
